@@ -8,7 +8,13 @@ try:
 except ImportError:  # pragma: no cover
     from monotonic import monotonic
 
-from .common import _Future, MAX_TIMEOUT, copy_future_exception, try_set_result
+from .common import (
+    _Future,
+    MAX_TIMEOUT,
+    copy_exception,
+    copy_future_exception,
+    try_set_result,
+)
 from .wrap import CanCustomizeBind
 from .helpers import executor_loop
 from .event import get_event, is_shutdown
@@ -316,21 +322,35 @@ class RetryExecutor(CanCustomizeBind, Executor):
                 if job.attempt != 0:
                     metrics.RETRY_TOTAL.labels(executor=self._name).inc()
 
-                delegate_future = self._delegate.submit(job.fn, *job.args, **job.kwargs)
-                job.future.delegate_future = delegate_future
+                error = None
+                try:
+                    delegate_future = self._delegate.submit(
+                        job.fn, *job.args, **job.kwargs
+                    )
+                except Exception as ex:  # pylint: disable=broad-except
+                    error = ex
+                else:
+                    job.future.delegate_future = delegate_future
 
-                new_job = RetryJob(
-                    job.policy,
-                    delegate_future,
-                    job.future,
-                    job.attempt + 1,
-                    None,
-                    job.fn,
-                    job.args,
-                    job.kwargs,
-                )
-                self._append_job(new_job)
-                self._log.debug("Submitted: %s", new_job)
+                    new_job = RetryJob(
+                        job.policy,
+                        delegate_future,
+                        job.future,
+                        job.attempt + 1,
+                        None,
+                        job.fn,
+                        job.args,
+                        job.kwargs,
+                    )
+                    self._append_job(new_job)
+                    self._log.debug("Submitted: %s", new_job)
+
+        if error is not None:
+            # The delegate refused the callable (e.g. it was shut down meanwhile).
+            # The job is gone, so fail the future rather than leaving it pending
+            # forever with nothing behind it.
+            copy_exception(job.future, error)
+            raise error
 
         delegate_future.add_done_callback(self._delegate_callback)
         self._wake_thread()
